@@ -125,6 +125,26 @@ theorem smul_right_cancel_of_ne_zero {k : ZMod n} (hk : k ≠ 0) {Y Y' : G} (h :
 theorem smul_ne_of_ne {g : G} (hg : g ≠ 0) {s s' : ZMod n} (h : s ≠ s') : s • g ≠ s' • g :=
   fun he => h (smul_left_cancel_of_ne_zero hg he)
 
+/-- Witness extraction: two openings of ONE commitment with different challenges determine a scalar `w` with
+`A = w•g` and `C' = w•B'` — the two discrete logs exist and are equal. No assumption on `g`, `A`, `B'`, `C'`. -/
+theorem opens_extract {g : G} {e e' s s' : ZMod n} {R1 R2 A B' C' : G}
+    (h : dleqOpens g R1 R2 e s A B' C') (h' : dleqOpens g R1 R2 e' s' A B' C') (hne : e ≠ e') :
+    A = ((s - s') * (e - e')⁻¹) • g ∧ C' = ((s - s') * (e - e')⁻¹) • B' := by
+  obtain ⟨h1, h2⟩ := h
+  obtain ⟨h1', h2'⟩ := h'
+  have hd : e - e' ≠ 0 := sub_ne_zero.mpr hne
+  have k1 : (s - s') • g = (e - e') • A := by
+    have : s • g + (-e) • A - (s' • g + (-e') • A) = 0 := sub_eq_zero.mpr (h1.trans h1'.symm)
+    have h0 : (s - s') • g - (e - e') • A = 0 := by rw [← this]; module
+    exact sub_eq_zero.mp h0
+  have k2 : (s - s') • B' = (e - e') • C' := by
+    have : s • B' + (-e) • C' - (s' • B' + (-e') • C') = 0 := sub_eq_zero.mpr (h2.trans h2'.symm)
+    have h0 : (s - s') • B' - (e - e') • C' = 0 := by rw [← this]; module
+    exact sub_eq_zero.mp h0
+  constructor
+  · rw [mul_comm, mul_smul, k1, inv_smul_smul₀ hd]
+  · rw [mul_comm, mul_smul, k2, inv_smul_smul₀ hd]
+
 /-- Special soundness, hash-free core: two openings of ONE commitment with different challenges for the statement
 `(a•g, B', C')` force `C' = a•B'`. -/
 theorem opens_two_challenges {g : G} (hg : g ≠ 0) {a e e' s s' : ZMod n} {R1 R2 B' C' : G}
